@@ -299,6 +299,39 @@ func amplifiers() []Case {
 		}
 		out = append(out, Case{Desc: fmt.Sprintf("mluc with %d records, own strings", n), Target: "icc", Data: build.SimpleProfile(build.Mluc(recs, nil, nil, 0), 0)})
 	}
+	// mluc records that repeat a language or a whole locale, with empty and non-empty strings in every order: every
+	// sequence of up to three records over {en-US, en-GB, de-DE} x {"", "Demo"} (a profile may say the same thing twice)
+	{
+		type opt struct {
+			l, c [2]byte
+			t    string
+		}
+		var opts []opt
+		for _, lc := range [][2][2]byte{{{'e', 'n'}, {'U', 'S'}}, {{'e', 'n'}, {'G', 'B'}}, {{'d', 'e'}, {'D', 'E'}}} {
+			for _, t := range []string{"", "Demo"} {
+				opts = append(opts, opt{lc[0], lc[1], t})
+			}
+		}
+		var seqs [][]int
+		for a := range opts {
+			seqs = append(seqs, []int{a})
+			for b := range opts {
+				seqs = append(seqs, []int{a, b})
+				for c := range opts {
+					seqs = append(seqs, []int{a, b, c})
+				}
+			}
+		}
+		for _, q := range seqs {
+			var recs []build.MlucRec
+			d := ""
+			for _, i := range q {
+				recs = append(recs, build.MlucRec{Lang: opts[i].l, Country: opts[i].c, Text: opts[i].t})
+				d += fmt.Sprintf(" %s-%s:%q", opts[i].l[:], opts[i].c[:], opts[i].t)
+			}
+			out = append(out, Case{Desc: "mluc with records" + d, Target: "icc", Data: build.SimpleProfile(build.Mluc(recs, nil, nil, 0), 0)})
+		}
+	}
 	// mluc with many records that all point at one long shared string (overlapping records): decoding every
 	// record eagerly makes the work and the allocation quadratic in the input size
 	for _, n := range []int{300, 3000} {
@@ -465,7 +498,7 @@ func TestC09(t *testing.T) {
 	}
 	debug.SetGCPercent(400)
 	mut.Full = ev.Thorough()
-	ev.Rule("(a) field matrix: every length/count/offset/dimension/type field in the field map of every seed (repository images and profile, grammar-built files incl. multi-record mluc, hostile mini-files; ICC fields of embedded profiles included) x ~40 hostile values (0,1,2,7,8,9,11,12,13,127,128,255,256,65535,65536,2^24-1,2^24,2^31-1,2^31,2^32-1, field+-1, field+-12, remaining length +-1, values making offset+size wrap 2^32), singly and in rapid-chosen pairs; (b) rapid structure-aware mutation (1-4 operators: set-field, truncate, duplicate/drop/swap chunk, splice two files, flip bits, change a type tag) of generated valid files and seeds; (a4) v2 textDescription tags built field by field (ASCII count x Unicode count incl. counts whose doubling wraps 2^32 x units present x ScriptCode count); (a5) payloads that are not profiles but resemble something the library knows (the marker of another container's profile segment, a bare header, another image file, a zlib stream, runs of 0xFF / zeros), cut at every length and embedded in every container; (a6) 300 valid profiles with distinct IDs, versions and descriptions through the whole chain in one process; (c) every truncation of every seed <= 8 KiB (quick, seeds > 2500 bytes: structure boundaries +-2 and every fifth position); (d) amplifier inputs (maximal-ratio deflate, many tags, many mluc records, 255 JPEG chunks). Entry chain per input: Load -> ICCProfile -> ICCProfileData -> ICCProfile again -> Description twice (or ReadProfile -> Description twice). Oracle: no escaping panic, never (nil metadata, nil error) nor a nil stream from Load, TotalAlloc delta <= 1 MiB + B*len(input), return within 1 s + 1 s/MiB (exceeded three times in a row; the slowest conforming call observed uses about 1-5 % of it). non-trivial = distinct mutated input whose signature is still accepted by the targeted entry point")
+	ev.Rule("(a) field matrix: every length/count/offset/dimension/type field in the field map of every seed (repository images and profile, grammar-built files incl. multi-record mluc, hostile mini-files; ICC fields of embedded profiles included) x ~40 hostile values (0,1,2,7,8,9,11,12,13,127,128,255,256,65535,65536,2^24-1,2^24,2^31-1,2^31,2^32-1, field+-1, field+-12, remaining length +-1, values making offset+size wrap 2^32), singly and in rapid-chosen pairs; (b) rapid structure-aware mutation (1-4 operators: set-field, truncate, duplicate/drop/swap chunk, splice two files, flip bits, change a type tag) of generated valid files and seeds; (a4) v2 textDescription tags built field by field (ASCII count x Unicode count incl. counts whose doubling wraps 2^32 x units present x ScriptCode count); (a5) payloads that are not profiles but resemble something the library knows (the marker of another container's profile segment, a bare header, another image file, a zlib stream, runs of 0xFF / zeros), cut at every length and embedded in every container; (a6) 300 valid profiles with distinct IDs, versions and descriptions through the whole chain in one process; (c) every truncation of every seed <= 8 KiB (quick, seeds > 2500 bytes: structure boundaries +-2 and every fifth position); (d) amplifier inputs (maximal-ratio deflate, many tags, many mluc records, mluc records repeating a language or locale with empty and non-empty strings in every order of up to three, 255 JPEG chunks). Entry chain per input: Load -> ICCProfile -> ICCProfileData -> ICCProfile again -> Description twice (or ReadProfile -> Description twice). Oracle: no escaping panic, never (nil metadata, nil error) nor a nil stream from Load, TotalAlloc delta <= 1 MiB + B*len(input), return within 1 s + 1 s/MiB (exceeded three times in a row; the slowest conforming call observed uses about 1-5 % of it). non-trivial = distinct mutated input whose signature is still accepted by the targeted entry point")
 	ev.Set("alloc_bound", map[string]any{"A_bytes": boundA, "B_per_input_byte": boundB})
 	ev.Assume("allocation is observed as the runtime.MemStats.TotalAlloc delta around the call (process-wide; a violation is re-measured once); absence over all byte strings is not established")
 	rc := &recorder{bad: map[string]bool{}}
